@@ -45,6 +45,8 @@ def _mk_fun(col, rule="C13.R1"):
     m = S.match(v, S.mcall(("const", repr("\n")), "join", S.V("lines")))
     if m is not None and m["lines"][:1] == ("list",) and S._list_contribs(m["lines"]) is not None:
         m = dict(m, lines=("acc", "list", S._list_contribs(m["lines"])))       # a display with starred parts is the list built in that order
+    if m is not None and m["lines"][:1] == ("acc",) and m["lines"][1] == "gen":
+        m = dict(m, lines=("acc", "list", m["lines"][2]))       # joining a generator built here joins the same lines in the same order
     if m is None or m["lines"][:1] != ("acc",) or m["lines"][1] != "list":
         raise AnalysisError(f"{q}: the result is not '\\n'.join(<list of lines built here>): {S.show(v)} -- cannot decide")
     lines = m["lines"][2]
